@@ -25,6 +25,7 @@ SCHED_PROPS = {
     'C04': ((900, 9000), (18, 150)), 'C08': ((900, 9000), (12, 90)), 'C13': ((900, 9000), (12, 90)),
     'C14': ((900, 9000), (18, 150)), 'C07': ((450, 4500), (6, 45)), 'C05': ((300, 3000), (3, 30)),
     'C06': ((900, 9000), (18, 150)), 'C12': ((300, 3000), (3, 30)),
+    'C10': ((600, 6000), (0, 0)),
     'C15': ((0, 0), (0, 0)),
 }
 
@@ -56,6 +57,7 @@ class Thread:
         self.done_implicit = False
         self.prelocked = False
         self.pending = {}     # slot -> key: manually polled async acquisitions not yet completed
+        self.exps = []        # guards of the running expiry call still to be dropped [(h,k)]
 
 
 class SchedOracle:
@@ -121,6 +123,10 @@ class SchedOracle:
                 th.cur = dict(slot=slot, key=int(st[2]), trying=st[1] in ('t', 'to', 'ta', 'tao'),
                               limit=int(st[4]) if len(st) > 3 else None)
                 th.park = 'lookup'
+                return
+            if st[0] == 'expire':
+                th.pc += 1
+                th.park = 'expire'
                 return
             if st[0] == 'alock':
                 th.pc += 1
@@ -246,9 +252,18 @@ class SchedOracle:
         else:
             th.park = 'lookup'              # the loop runs again
 
+    def next_exp(self, t, th, evs, i):
+        """the guards an expiry call returned are dropped one after the other (their values stay)"""
+        if th.exps:
+            (h, k) = th.exps.pop(0)
+            th.park = 'release'
+            th.releasing = (k, ('exp', h))
+        else:
+            self.advance(t, th, evs, i)
+
     def step(self, t, res, statuses, i):
         th = self.threads[t]
-        evs = [] if res == '-' else re.split(r',(?=lock\d+=|poll\d+=|op\d+=|count=|keys=|ev=|skip|panic:|upanic|poisoned)', res)
+        evs = [] if res == '-' else re.split(r',(?=lock\d+=|poll\d+=|op\d+=|count=|keys=|ev=|exp=|skip|panic:|upanic|poisoned)', res)
         if any(e.startswith('panic:') or e == 'poisoned' for e in evs):
             self.fail(['C13'], i, f'thread {t}: library panic {evs}')
             th.park = 'D'
@@ -283,6 +298,24 @@ class SchedOracle:
                 th.prelocked = c['key'] not in self.present()
                 th.handle_key = c['key']
                 th.park = 'key'
+        elif th.park == 'expire':
+            ev = evs.pop(0) if evs else ''
+            if not ev.startswith('exp='):
+                self.fail(['C10'], i, f'thread {t}: expected the result of the expiry call, got {ev}')
+                th.park = 'D'
+                return
+            got = [] if ev[4:] == '-' else [tuple(int(x) for x in p.split(':')) for p in ev[4:].split(',')]
+            # d = 0: exactly the entries that have a value and whose mutex is free (no guard, not handed to a waiter)
+            want = set(k for k in self.vals if not self.held(k) and not self.awaited(k))
+            gk = [k for _, k in got]
+            if len(set(gk)) != len(gk) or set(gk) != want:
+                self.fail(['C10'], i, f'thread {t}: expiry(0) returned guards for {gk}, exactly {sorted(want)} are unlocked and have a value')
+            for (h, k) in got:
+                if self.held(k):
+                    self.fail(['C01', 'C10'], i, f'thread {t}: expiry returned a guard for key {k} while another guard for it is alive')
+                self.guards[(t, 'exp', h)] = k
+            th.exps = got
+            self.next_exp(t, th, evs, i)
         elif th.park == 'key':
             c = th.cur
             st = statuses.get(t)
@@ -332,6 +365,8 @@ class SchedOracle:
             th.releasing = None
             if ident[0] == 'cand':
                 self.next_cand(t, th)
+            elif ident[0] == 'exp':
+                self.next_exp(t, th, evs, i)
             else:
                 self.advance(t, th, evs, i)
         elif th.park == 'cancel':
@@ -545,7 +580,7 @@ def run(pid, tier, seed, work):
     ncases = gq if tier == 'quick' else gt
     nsets = dq if tier == 'quick' else dt
     jobs = []
-    kinds = ['pool'] if pid == 'C14' else ['lru', 'hashmap', 'pool']
+    kinds = ['pool'] if pid == 'C14' else (['lru'] if pid == 'C10' else ['lru', 'hashmap', 'pool'])
     profile = 'limit' if pid in ('C07', 'C08') else ('cancel' if pid in ('C06', 'C13', 'C04', 'C12') else 'mixed')
     sd = int(hashlib.sha256(f'{seed}/{pid}/sched'.encode()).hexdigest()[:8], 16)
     if ncases:
